@@ -204,9 +204,45 @@ def _gen_random(rng, n, maxlen):
     return out
 
 
+def _gen_tokens(rng, n):
+    """Token-structured sources: every lexer branch that touches the line bookkeeping
+    (block strings with LF / CR / CR LF inside, comments, strings, numbers, names, punctuators)
+    separated by random ignored material, so that tokens follow multi-line tokens on the same line."""
+    seps = [" ", "  ", ",", "\n", "\r", "\r\n", "\n\n", "\r\r\n", "\t", "\ufeff", "", "", " \r", "\n "]
+    nl = ["\n", "\r", "\r\n"]
+    out = []
+    for _ in range(n):
+        parts = []
+        for _ in range(rng.randint(1, 7)):
+            k = rng.randrange(9)
+            if k == 0:
+                inner = "".join(rng.choice(["a", " ", "x y", "\x0c", "\u2028", '\\"""', '"', "\\"] + nl + nl) for _ in range(rng.randint(0, 6)))
+                if inner.endswith('"') or inner.endswith("\\"):
+                    inner += " "
+                parts.append('"""' + inner + '"""')
+            elif k == 1:
+                parts.append('"' + "".join(rng.choice(["a", " ", "\\n", "\\u0041", "\x0c", "\x85", "é"]) for _ in range(rng.randint(0, 4))) + '"')
+            elif k == 2:
+                parts.append("#" + "".join(rng.choice(["c", " ", "\x0c", "\u2028", '"']) for _ in range(rng.randint(0, 4))) + rng.choice(nl))
+            elif k == 3:
+                parts.append(rng.choice(["0", "12", "-1", "1.5", "2e3", "1.0E-2"]))
+            elif k == 4:
+                parts.append(rng.choice(["a", "foo", "_x1", "query"]))
+            elif k == 5:
+                parts.append(rng.choice(["{", "}", "(", ")", "[", "]", ":", "!", "$", "@", "=", "|", "&", "..."]))
+            elif k == 6:
+                parts.append(rng.choice(["?", "'", "\x0c", "\u2028", "..", "1x", '"\\q"', '"\n', '"""a']))  # an error at this point
+            else:
+                parts.append(rng.choice(["a", "{", "1"]))
+            parts.append(rng.choice(seps))
+        out.append("".join(parts))
+    return out
+
+
 CORPUS = [
     "{\n?", '" " ?', "\x0c?", "a\r\n?", "a\r?", "\r\n\r\n?", " ?", "\x85\x85?", '"""\n\x0c\n"""?', "#\x0c\n?",
     "\x1c?", "\x1d\x1e?", "\x0b?", "{a\x1c\n ?}",
+    '"""\r\n  doc\r\n""" type', '"""\r\n""" a', '"""\n\r""" a ?', '"""a\r""" b', '{\r  a ?\r}', 'a\n\r?', '\n a\r b ?',
 ]
 
 
@@ -218,6 +254,7 @@ def explore(ctx) -> Report:
     bodies = list(CORPUS) + list(strings_upto(n))
     rng = ctx.sub_rng("c10")
     bodies += _gen_random(rng, 3000 if ctx.tier == "quick" else 60000, 14)
+    bodies += _gen_tokens(rng, 4000 if ctx.tier == "quick" else 80000)
     # long lines (minified-document branch of print_source_location)
     bodies += ["a" * rng.randint(100, 200) + rng.choice(["\n", "\r\n", "\x0c"]) + "?" for _ in range(10)]
     chunks = fw.chunked(bodies, fw.WORKERS * 4)
@@ -228,7 +265,7 @@ def explore(ctx) -> Report:
         rep.merge(r)
     rep.rule = (
         f"all strings of length <= {n} over the 11-symbol alphabet {ALPHABET!r} x all offsets 0..len+1 (exhaustive), "
-        "plus corpus and seeded random strings of length 5..14; non-trivial = string contains a line terminator "
+        "plus corpus, seeded random strings of length 5..14 and seeded token-structured sources (block strings with LF/CR/CR LF inside, comments, strings, numbers, names, punctuators, error points, random ignored separators); non-trivial = string contains a line terminator "
         "or one of the non-terminators FF/NEL/LS that str.splitlines would split on; distinct by construction"
     )
     rep.exhaustive = True
